@@ -35,6 +35,10 @@ func (e *Error) updateFromTokenIfNeeded(template *Template, t *Token) *Error {
 			return e
 		}
 		e.Token = t
+		if e.Filename == "" {
+			// a position without the source it belongs to says nothing
+			e.Filename = t.Filename
+		}
 		if e.Line <= 0 {
 			e.Line = t.Line
 			e.Column = t.Col
